@@ -13,11 +13,25 @@ func (p *ParserPlanner) json(ctx *shared.PlannerContext) (sql.ISelect, error) {
 		return nil, err
 	}
 
-	jsonPaths := make([][]string, len(p.Vals))
+	jsonPaths := make([][]sql.SQLObject, len(p.Vals))
 	for i, val := range p.Vals {
-		jsonPaths[i], err = shared.JsonPathParamToArray(val)
+		names, err := shared.JsonPathParamToArray(val)
 		if err != nil {
 			return nil, err
+		}
+		typed, err := shared.JsonPathParamToTypedArray(val)
+		if err != nil {
+			return nil, err
+		}
+		jsonPaths[i] = make([]sql.SQLObject, len(names))
+		for j, name := range names {
+			// `[n]` addresses an array element: ClickHouse takes an integer argument for that (counted
+			// from 1); the string '1' would be looked up as an object key
+			if idx, ok := typed[j].(int); ok {
+				jsonPaths[i][j] = sql.NewIntVal(int64(idx) + 1)
+				continue
+			}
+			jsonPaths[i][j] = sql.NewStringVal(name)
 		}
 	}
 
@@ -38,7 +52,7 @@ func (p *ParserPlanner) json(ctx *shared.PlannerContext) (sql.ISelect, error) {
 type sqlJsonParser struct {
 	col    sql.SQLObject
 	labels []string
-	paths  [][]string
+	paths  [][]sql.SQLObject
 }
 
 func (s *sqlJsonParser) String(ctx *sql.Ctx, opts ...int) (string, error) {
@@ -61,7 +75,7 @@ func (s *sqlJsonParser) String(ctx *sql.Ctx, opts ...int) (string, error) {
 		strings.Join(strVals, ",")), nil
 }
 
-func (s *sqlJsonParser) path2Sql(path []string, ctx *sql.Ctx, opts ...int) (string, error) {
+func (s *sqlJsonParser) path2Sql(path []sql.SQLObject, ctx *sql.Ctx, opts ...int) (string, error) {
 	colName, err := s.col.String(ctx, opts...)
 	if err != nil {
 		return "", err
@@ -70,7 +84,7 @@ func (s *sqlJsonParser) path2Sql(path []string, ctx *sql.Ctx, opts ...int) (stri
 	res := make([]string, len(path))
 	for i, part := range path {
 		var err error
-		res[i], err = (sql.NewStringVal(part)).String(ctx, opts...)
+		res[i], err = part.String(ctx, opts...)
 		if err != nil {
 			return "", err
 		}
